@@ -130,10 +130,10 @@ def space_analysis(ctx):
         (f'{GM}._get_conditional_distribution', 'conditions'): 'Z',
     })
     facts = {}  # (method, call node id) -> list of (path, kinds of args)
-    for name in ('_transform_to_normal', '_get_correlation', '_get_normal_samples', 'sample', 'probability_density',
-                 'cumulative_distribution'):
-        fn = cls.lookup(name)
-        if fn is None:
+    for name in sorted(cls.methods):
+        fn = cls.methods[name]
+        if name in ('__init__', '__repr__', 'to_dict', 'from_dict', 'fit', '_fit_columns', '_fit_column', '_validate_input',
+                    '_fit_with_fallback_distribution', '_get_distribution_for_column'):
             continue
         for path in enum_paths(fn.body()):
             fr = Frame(fn, {}, cls, path=path)
@@ -151,6 +151,18 @@ def space_analysis(ctx):
     return sk, facts
 
 
+def report_space_all(ctx, rep, rule):
+    sk, facts = space_analysis(ctx)
+    n = 0
+    for node, fn, msg in sk.mismatches:
+        n += 1
+        if msg.startswith('?'):
+            rep.undecided(rule, fn, node, msg[1:])
+        else:
+            rep.bad(rule, fn, node, msg)
+    return n
+
+
 def report_space(ctx, rep, rule, methods):
     sk, facts = space_analysis(ctx)
     prog = ctx.prog
@@ -164,3 +176,238 @@ def report_space(ctx, rep, rule, methods):
             else:
                 rep.bad(rule, fn, node, msg)
     return n
+
+
+# ------------------------------------------------------------------ column provenance in sample()
+class ColProv(AbsInt):
+    """Which training column a value belongs to inside the column loop of sample():
+    ('key', L) the loop's column name, ('uni', L) its marginal, ('draw', L | 'positional') the normal draw selected for a
+    column, ('x', Lu, Ld) a marginal quantile of column Lu applied to the draw of column Ld, ('given', L) the
+    conditioning value of column L."""
+
+    def __init__(self, ctx):
+        super().__init__(ctx)
+        self.hierarchy = 'uni'
+
+    def const(self, node, fr):
+        return 'k'
+
+    def param(self, name, fr):
+        if name in fr.params:
+            return fr.params[name]
+        if name == 'conditions':
+            return 'COND'
+        return TOP
+
+    def self_attr(self, attr, node, fr):
+        return {'columns': 'COLS', 'univariates': 'UNIS'}.get(attr, TOP)
+
+    def join_distinct(self, a, b):
+        return TOP
+
+    def iter_value(self, it, fr):
+        v = super().iter_value(it, fr)
+        return v
+
+    def iter_elem(self, val, node, fr):
+        if isinstance(val, Tup) and val.kind == 'zip' and len(val.elems) == 2 and val.elems[0] == 'COLS' and val.elems[1] == 'UNIS':
+            return Tup([('key', id(node)), ('uni', id(node))])
+        if val == 'COLS':
+            return ('key', id(node))
+        return TOP
+
+    def project_call_override(self, g, node, fr):
+        if g.name == '_get_normal_samples':
+            return 'DRAWS'
+        return None
+
+    def subscript(self, node, base, fr):
+        if base == 'DRAWS':
+            k = self.value(node.slice, fr)
+            if isinstance(k, tuple) and k and k[0] == 'key':
+                return ('draw', k[1])
+            return ('draw', 'positional')
+        if base == 'COND':
+            k = self.value(node.slice, fr)
+            if isinstance(k, tuple) and k and k[0] == 'key':
+                return ('given', k[1])
+            return TOP
+        if isinstance(base, tuple) and base and base[0] == 'draw':
+            return base
+        return TOP
+
+    def attribute(self, node, base, fr):
+        if base == 'DRAWS' and node.attr in ('values', 'loc', 'iloc', 'T'):
+            return 'DRAWS'
+        return TOP
+
+    def external_call(self, name, node, fr):
+        a = node.args
+        if name in ('scipy.stats.norm.cdf', 'scipy.special.ndtr', 'scipy.stats.norm.pdf', 'numpy.asarray', 'numpy.array', 'numpy.ravel', 'numpy.clip') and a:
+            return self.value(a[0], fr)
+        if name == 'numpy.full' and len(a) >= 2:
+            return self.value(a[1], fr)
+        if name == 'numpy.repeat' and a:
+            return self.value(a[0], fr)
+        return TOP
+
+    def method_call(self, meth, node, recv, fr):
+        if meth in ('to_numpy', 'copy', 'astype', 'clip', 'ravel') and (recv == 'DRAWS' or (isinstance(recv, tuple) and recv and recv[0] in ('draw', 'given'))):
+            return recv
+        if meth in ('percent_point', 'ppf') and isinstance(recv, tuple) and recv and recv[0] == 'uni':
+            a = self.value(node.args[0], fr) if node.args else TOP
+            d = a[1] if isinstance(a, tuple) and a and a[0] == 'draw' else ('?' if a is TOP else 'other')
+            return ('x', recv[1], d)
+        return None
+
+    def call(self, node, fr):
+        f = node.func
+        if isinstance(f, ast.Attribute) and f.attr in ('percent_point', 'ppf'):
+            recv = self.value(f.value, fr)
+            r = self.method_call(f.attr, node, recv, fr)
+            if r is not None:
+                return r
+        return super().call(node, fr)
+
+
+def sample_column_stores(ctx):
+    """[(store stmt, key value, stored value, reach formula inside the loop, loop)] for sample()'s output dict."""
+    from ..boolcond import Conds
+    from .c01 import _output_stores
+    prog = ctx.prog
+    fn = gm_method(ctx, 'sample')
+    dname, ret, stores = _output_stores(fn)
+    cp = ColProv(ctx)
+    cls = prog.cls(GM)
+    out = []
+    for st in stores:
+        loop = None
+        p = st._parent
+        while p is not None and p is not fn.node:
+            if isinstance(p, ast.For):
+                loop = p
+                break
+            p = p._parent
+        fr = Frame(fn, {}, cls)
+        k = cp.value(st.targets[0].slice, fr)
+        v = cp.value(st.value, fr)
+        reach = None
+        if loop is not None:
+            cd = Conds(prog, fn)
+            reach = cd.reach(st, stmts=loop.body)
+        out.append((st, k, v, reach, loop))
+    return fn, out
+
+
+# ---------------------------------------------------------------- provenance in the fit pipeline
+class FitProv(AbsInt):
+    """('key', L) the name of the column visited by loop L over X.items(); ('col', L) its data; ('dist', L) the
+    distribution looked up for ('key', L); ('fit', Lcol, Ldist, Lname) the model returned by _fit_column;
+    ('list', elt, filtered?) a list with one element per iteration."""
+    MAX_DEPTH = 4
+
+    def __init__(self, ctx):
+        super().__init__(ctx)
+        self.filtered = []
+
+    def const(self, node, fr):
+        return 'k'
+
+    def param(self, name, fr):
+        if name in fr.params:
+            return fr.params[name]
+        return ('param', name)
+
+    def join_distinct(self, a, b):
+        return TOP
+
+    def iter_value(self, it, fr):
+        if isinstance(it, ast.Call) and isinstance(it.func, ast.Attribute) and it.func.attr == 'items' and not it.args:
+            v = self.value(it.func.value, fr)
+            return ('items', v)
+        return super().iter_value(it, fr)
+
+    def iter_elem(self, val, node, fr):
+        if isinstance(val, tuple) and val and val[0] == 'items':
+            return Tup([('key', id(node)), ('col', id(node))])
+        if isinstance(val, tuple) and val and val[0] == 'list':
+            return val[1]
+        if isinstance(val, Tup) and val.kind == 'zip':
+            return Tup([self.iter_elem(e, node, fr) for e in val.elems])
+        return TOP
+
+    def unpack(self, val, index, total, node, fr):
+        if isinstance(val, Tup) and len(val.elems) == total:
+            return val.elems[index]
+        return TOP
+
+    def sequence(self, node, vals, fr):
+        return Tup(vals)
+
+    def comprehension(self, node, fr):
+        if isinstance(node, ast.ListComp) and len(node.generators) == 1:
+            elt = self.value(node.elt, fr)
+            return ('list', elt, bool(node.generators[0].ifs))
+        return TOP
+
+    def project_call_override(self, g, node, fr):
+        from .c20 import get_alias
+        b = get_alias(self.ctx).bind(fr.fn, node, g)
+        if g.name == '_get_distribution_for_column':
+            a = [self.value(x, fr) for x in b.get(g.params[1], [])]
+            if a and isinstance(a[0], tuple) and a[0][0] == 'key':
+                return ('dist', a[0][1])
+            return TOP
+        if g.name == '_fit_column':
+            def one(p):
+                v = [self.value(x, fr) for x in b.get(p, [])]
+                return v[0] if v else TOP
+            c, d, n = one('column'), one('distribution'), one('column_name')
+            tag = lambda v, k: v[1] if isinstance(v, tuple) and v and v[0] == k else None
+            return ('fit', tag(c, 'col'), tag(d, 'dist'), tag(n, 'key'))
+        if g.name == '_validate_input':
+            return self.value(node.args[0], fr) if node.args else TOP
+        return None
+
+    def name(self, node, fr):
+        acc = self._appended(node.id, fr)
+        if acc is not None:
+            return acc
+        return super().name(node, fr)
+
+    def _appended(self, nm, fr):
+        binds = fr.bindings.get(nm, [])
+        if not binds or not all(b.kind == 'assign' and isinstance(b.value, ast.List) and not b.value.elts for b in binds):
+            return None
+        apps = [n for n in walk_no_nested(fr.fn.node) if isinstance(n, ast.Call) and isinstance(n.func, ast.Attribute)
+                and n.func.attr == 'append' and isinstance(n.func.value, ast.Name) and n.func.value.id == nm]
+        if len(apps) != 1:
+            return TOP if apps else None
+        st = apps[0]._parent
+        lp = st._parent
+        conditional = not (isinstance(lp, ast.For) and st in lp.body) or any(isinstance(x, (ast.Continue, ast.Break)) for x in ast.walk(lp))
+        return ('list', self.value(apps[0].args[0], fr), conditional)
+
+
+def fit_pipeline(ctx):
+    """(value of self.columns, value of self.univariates) after fit, in the FitProv domain."""
+    from ..idioms import attr_stores
+    prog = ctx.prog
+    fit = gm_method(ctx, 'fit')
+    cls = prog.cls(GM)
+    fp = FitProv(ctx)
+    fr = Frame(fit, {}, cls)
+    out = {}
+    for attr in ('columns', 'univariates'):
+        sts = attr_stores(fit, attr)
+        if len(sts) != 1:
+            out[attr] = (None, TOP)
+            continue
+        st, v = sts[0]
+        if isinstance(v, tuple) and v and v[0] == 'unpack':
+            val = fp.value(v[1], fr)
+            val = val.elems[v[2]] if isinstance(val, Tup) and v[2] < len(val.elems) else TOP
+        else:
+            val = fp.value(v, fr) if v is not None else TOP
+        out[attr] = (st, val)
+    return fit, out
